@@ -532,20 +532,28 @@ class TypeAliasValue(Value):
         for arg in self.type_arguments:
             yield from arg.walk_values()
 
+    def _is_same_specialization(self, other: Value) -> bool:
+        # Specializations made by substituting type variables share the alias object.
+        return (
+            isinstance(other, TypeAliasValue)
+            and self.alias is other.alias
+            and tuple(self.type_arguments) == tuple(other.type_arguments)
+        )
+
     def can_assign(self, other: Value, ctx: CanAssignContext) -> CanAssign:
-        if isinstance(other, TypeAliasValue) and self.alias is other.alias:
+        if self._is_same_specialization(other):
             return {}
         return self.get_value().can_assign(other, ctx)
 
     def can_be_assigned(self, other: Value, ctx: CanAssignContext) -> CanAssign:
-        if isinstance(other, TypeAliasValue) and self.alias is other.alias:
+        if self._is_same_specialization(other):
             return {}
         return other.can_assign(self.get_value(), ctx)
 
     def can_overlap(
         self, other: Value, ctx: CanAssignContext, mode: OverlapMode
     ) -> Optional[CanAssignError]:
-        if isinstance(other, TypeAliasValue) and self.alias is other.alias:
+        if self._is_same_specialization(other):
             return None
         return self.get_value().can_overlap(other, ctx, mode)
 
